@@ -386,10 +386,13 @@ def gen_tmap(rng, threads, n_extra=3, declare_p=0.7):
         tmap.append([rng.randrange(1, 1 << rng.pick([16, 32, 63])), rng.pick([rng.randrange(0, 1 << rng.pick([8, 16, 31])), 0x80000000, 0xffffffff, 0xfffffffe, rng.randrange(1 << 31, 1 << 32), 0]),
                      rng.text(rng.pick([0, 1, 5, 18, 19]), multibyte=True)[:19], rng.pick(['', 'ff', '00aa', '416200'])])
     for t in tmap:
-        if rng.chance(0.08):
-            t[2] = dict_name(rng) or t[2]          # a name the source mentions
-        if rng.chance(0.08):
-            t[1] = rng.pick([0, 1, 2])             # the first pids
+        if rng.chance(0.1):
+            # a name that the container / formatting code itself mentions, usually together with one of the first pids
+            t[2] = dict_name(rng, files=('kd_buf_parser.py', 'pykdebugparser.py', 'kevent.py')) or dict_name(rng) or t[2]
+            if rng.chance(0.8):
+                t[1] = rng.pick([0, 1, 2])
+        elif rng.chance(0.05):
+            t[1] = rng.pick([0, 1, 2])
     if tmap and rng.chance(0.3):   # duplicate key, later wins
         t = list(rng.pick(tmap))
         t[1] = rng.randrange(1, 5000)
@@ -698,6 +701,7 @@ def dictionary():
     import ast
     import os
     ints, strs, byts = set(), set(), set()
+    strs_by_file = {}
     root = os.path.join(tool.REPO, 'pykdebugparser')
     for dirpath, _dirs, files in os.walk(root):
         for fn in sorted(files):
@@ -722,9 +726,10 @@ def dictionary():
                     ints.add(v)
                 elif isinstance(v, str) and 2 <= len(v) <= 40 and '\n' not in v and '{' not in v:
                     strs.add(v)
+                    strs_by_file.setdefault(fn, set()).add(v)
                 elif isinstance(v, bytes) and 1 <= len(v) <= 64:
                     byts.add(v)
-    _dict = {'ints': sorted(ints), 'strs': sorted(strs), 'bytes': sorted(byts),
+    _dict = {'ints': sorted(ints), 'strs': sorted(strs), 'bytes': sorted(byts), 'strs_by_file': {k: sorted(v) for k, v in strs_by_file.items()},
              'sizes': sorted(v for v in ints if 256 <= v <= (1 << 18)),
              'bytesizes': sorted(v for v in ints if (1 << 18) < v <= (1 << 25))}
     return _dict
@@ -738,10 +743,13 @@ def dict_size(rng, cap):
     return rng.pick(sizes) + rng.pick([-1, 0, 1, 1])
 
 
-def dict_name(rng, maxlen=19):
-    """A name the source itself mentions (identifier-like string constant), cut to maxlen bytes; None if there is none."""
+def dict_name(rng, maxlen=19, files=None):
+    """A name the source itself mentions (identifier-like string constant), cut to maxlen bytes; None if there is none.
+    files: restrict to the string constants of these source files (the ones a property is anchored in)."""
     import re
-    names = [s for s in dictionary()['strs'] if re.fullmatch(r'[A-Za-z_][A-Za-z0-9_.\-]{2,}', s) and len(s) <= maxlen]
+    d = dictionary()
+    pool = d['strs'] if files is None else [x for f in files for x in d['strs_by_file'].get(f, [])]
+    names = [s for s in pool if re.fullmatch(r'[A-Za-z_][A-Za-z0-9_.\-]{2,}', s) and len(s) <= maxlen]
     return rng.pick(names) if names else None
 
 
